@@ -18,15 +18,33 @@ def run_cases(b, cases, workdir):
 
     def one(i):
         ctx = ctxs[i]
+        filters.open_tree(ctx.w, b["root"])
+        os.chmod(ctx.w, 0o777)
+        open(ctx.log, "wb").close()
+        os.chmod(ctx.log, 0o666)
         s = drv.Script()
         s.add("sinkfile", "file", drv.hx(ctx.log)).add("sinkstd").add("sinkdevlog", "devlog", drv.hx(ctx.devlog))
         s.path(ctx.helper).argv([b"prog", b"x"]).envp([b"A=1"]).add("ret", -1, 2).add("snap", 0)
-        for label, chain, selfname, items in batches[i]:
+        for label, chain, selfname, items, unread in batches[i]:
             ini = b'[snoopy]\nmessage_format = "%{cmdline}"\noutput = file:' + ctx.log + b'\nfilter_chain = "exclude_spawns_of:' + ",".join(items).encode() + b'"\n'
-            s.add("emit", "item:" + label).add("name", drv.hx(chain[-1].encode()))
-            for nm in reversed(chain[:-1]):
-                s.add("fork").add("name", drv.hx(nm.encode()))
-            s.add("fork").add("name", drv.hx(selfname.encode())).add("ini", drv.hx(ini)).call("execve", label).add("endfork")
+            s.add("emit", "item:" + label).add("ini", drv.hx(ini)).add("name", drv.hx(chain[-1].encode()))
+            # positions count from the parent (1) to the top (len(chain)); with unread = u > 0 the ancestors at positions >= u stay root-owned,
+            # the ones below u and the caller itself run as uid 4242 (dumpable again after the uid switch): under hidepid=2 the caller can then
+            # read exactly the positions below u
+            drop_priv = ["gids 4243 4243 4243", "nogroups", "ids 4242 4242 4242", "dumpable"]
+            switched = False
+            for pos in range(len(chain) - 1, 0, -1):
+                s.add("fork")
+                if unread and pos < unread and not switched:
+                    for cmd_ in drop_priv:
+                        s.add(cmd_)
+                    switched = True
+                s.add("name", drv.hx(chain[pos - 1].encode()))
+            s.add("fork")
+            if unread and not switched:
+                for cmd_ in drop_priv:
+                    s.add(cmd_)
+            s.add("name", drv.hx(selfname.encode())).call("execve", label).add("endfork")
             for _ in chain[:-1]:
                 s.add("endfork")
             s.add("drain", "post:" + label)
@@ -36,7 +54,11 @@ def run_cases(b, cases, workdir):
             os.unlink(op)
         inner = ["env", "LD_PRELOAD=" + b["lib"] + ":" + os.path.join(c.BUILD, "librec.so"), "XDRV_INI=" + os.path.join(ctx.etc, "snoopy.ini"),
                  os.path.join(c.BUILD, "xdrv"), sp, op]
-        cmd = (["unshare", "-p", "-f", "--mount-proc"] if can_ns else []) + inner
+        if can_ns:
+            import shlex
+            cmd = ["unshare", "-p", "-f", "--mount-proc", "sh", "-c", "mount -o remount,hidepid=2 /proc 2>/dev/null; exec " + " ".join(shlex.quote(x) for x in inner)]
+        else:
+            cmd = inner
         try:
             subprocess.run(cmd, env={"PATH": "/usr/sbin:/usr/bin:/sbin:/bin"}, capture_output=True, timeout=1500, cwd=ctx.w, stdin=subprocess.DEVNULL)
         except subprocess.TimeoutExpired:
@@ -86,7 +108,7 @@ def run(tier, seed, replay=None):
     if tier == "thorough":
         rep.tlc(c.run_tlc("SpawnsOfMC.tla", "SpawnsOfMCdeep.cfg", heap="16g"))
     rep.cov["vacuity_guards"] = {d: c.run_tlc("SpawnsOfMC.tla", "SpawnsOfDefect_%s.cfg" % d, expect_violation=True).violated for d in ("D1", "D2", "D3", "D4", "D5", "D6")}
-    g = c.run_tlc("SpawnsOfMC.tla", "SpawnsOfGen.cfg", heap="16g")
+    g = c.run_tlc("SpawnsOfMC.tla", "SpawnsOfGenU.cfg", heap="16g")
     rep.tlc(g)
     hs = [json.loads(x) for x in g.printed]
     if tier == "quick":
@@ -109,15 +131,17 @@ def run(tier, seed, replay=None):
         text = ",".join(h["list"])
         if len(text) > 900 or all(x == "" for x in h["list"]) and False:
             continue
-        cases.append((lab, h["chain"], h["self"], h["list"]))
+        cases.append((lab, h["chain"], h["self"], h["list"], h.get("unread", 0)))
         meta[lab] = h
     c.log("[C15] replaying %d process chains" % len(cases))
     obs, ns = run_cases(b, cases, b["root"] + "/run")
     if not ns:
         rep.assumptions.append("pid namespaces unavailable: chains hang below the harness's own ancestors, pid 1 is the sandbox's init")
     nontriv = 0
-    for lab, chain, selfname, items in cases:
+    for lab, chain, selfname, items, unread in cases:
         h = meta[lab]
+        if unread and not ns:
+            continue
         if len(chain) >= 2:
             nontriv += 1
         prob = filters.judge(obs.get(lab), not h["drop"])
@@ -125,15 +149,15 @@ def run(tier, seed, replay=None):
             rep.assumptions.append("case skipped (setup failed): " + prob[:100])
             continue
         if prob:
-            o2, _ = run_cases(b, [(lab, chain, selfname, items)], b["root"] + "/confirm")
+            o2, _ = run_cases(b, [(lab, chain, selfname, items, unread)], b["root"] + "/confirm")
             if not filters.judge(o2.get(lab), not h["drop"]):
                 rep.assumptions.append("non-repeatable observation ignored: " + prob[:80])
                 continue
             pos = [i + 1 for i, n in enumerate(chain) if n in set(items) - {""}]
             kind = ("match-at-top" if pos and pos[0] == len(chain) else "match-at-parent" if pos and pos[0] == 1 else "match-in-middle" if pos else
                     "self-listed" if selfname in items else "no-match")
-            rep.violation("%s:%s%s" % (kind, "empty-items" if "" in items else "plain-list", ":deep" if len(chain) > 3 else ""),
-                          "ancestors (parent first) %r, own name %r, exclude_spawns_of:%s : %s" % (chain, selfname, ",".join(items)[:120], prob),
+            rep.violation("%s:%s%s%s" % (kind, "empty-items" if "" in items else "plain-list", ":deep" if len(chain) > 3 else "", ":unreadable-from-%d" % unread if unread else ""),
+                          "ancestors (parent first) %r%s, own name %r, exclude_spawns_of:%s : %s" % (chain, " (unreadable from position %d up)" % unread if unread else "", selfname, ",".join(items)[:120], prob),
                           dict(chain=chain, self=selfname, list=items, contract="drop" if h["drop"] else "pass"))
     rep.cov["traces_validated_against_impl"] = len(cases)
     rep.cov["evaluations"] = len(cases)
@@ -143,5 +167,6 @@ def run(tier, seed, replay=None):
                        "namespace; non-trivial = depth >= 2")
     for h in hs[:2] + hs[-1:]:
         rep.sample(dict(chain=h["chain"], self=h["self"], list=h["list"], drop=h["drop"]))
-    rep.assumptions.append("unreadable ancestors (hidepid) are model-checked (Unreadable positions in SpawnsOfMC.cfg) but not reproduced on the real /proc in this check")
+    rep.assumptions.append("unreadable ancestors are produced with a hidepid=2 proc mount inside the pid namespace: ancestors from position u upwards are root-owned, "
+                           "the caller and the ancestors below u run as uid 4242")
     return rep.finish()
